@@ -51,7 +51,8 @@ func (w *OW) Lookup(leaf *world.Ident, chain [][]*x509.Certificate) (v Verdict) 
 			v = Verdict{Panic: fmt.Sprint(r)}
 		}
 	}()
-	st, err := w.Chk.IsRevoked(leaf.Cert, chain)
+	cert, chains := freshHandshake(leaf.Cert, chain)
+	st, err := w.Chk.IsRevoked(cert, chains)
 	return mkVerdict(st, err)
 }
 
